@@ -1,6 +1,7 @@
 package fsm
 
 import (
+	"bytes"
 	"fmt"
 	"os"
 	"sync"
@@ -296,6 +297,31 @@ type variety struct {
 	Reuse      bool   // outbound only
 	PriorIn    bool   // outbound only: an inbound session was Established and ended by a TCP close before
 	Slow       bool   // plugin callbacks sleep 0-3 virtual microseconds
+	Echo       bool   // the plugin calls WriteUpdate synchronously from OnEstablished and from the update handler
+	// Storm (opt-in): that many plugin goroutines per session wait for Kick and then
+	// write a burst of UPDATEs, so that corebgp's own messages compete with
+	// WriteUpdate calls for the connection
+	Storm int
+	kick  *kicker
+}
+
+type kicker struct {
+	ch   chan struct{}
+	once sync.Once
+}
+
+// withStorm returns v with n background writers per session.
+func (v variety) withStorm(n int) variety {
+	v.Storm = n
+	v.kick = &kicker{ch: make(chan struct{})}
+	return v
+}
+
+// Kick releases the background writers (idempotent, a no-op without Storm).
+func (v variety) Kick() {
+	if v.kick != nil {
+		v.kick.once.Do(func() { close(v.kick.ch) })
+	}
 }
 
 func pickVariety(r *rand.Rand, dir string) variety {
@@ -304,6 +330,7 @@ func pickVariety(r *rand.Rand, dir string) variety {
 		RemoteHold: []uint16{90, 90, 0, 30}[r.IntN(4)],
 		Reuse:      dir == "out" && r.IntN(3) == 0,
 		Slow:       r.IntN(3) == 0,
+		Echo:       r.IntN(3) == 0,
 	}.prior(r, dir)
 }
 
@@ -314,23 +341,90 @@ func (v variety) prior(r *rand.Rand, dir string) variety {
 	return v
 }
 
+// echoBody is what an echoing plugin writes; sansEcho removes those UPDATEs from
+// what the remote received so that the expectations about corebgp's own messages
+// stay exact.
+var echoBody = []byte{0xEC, 0x40, 0xEC, 0x40}
+
+func sansEcho(ms []hz.RMsg) []hz.RMsg {
+	var out []hz.RMsg
+	for _, m := range ms {
+		if m.Type == wire.TypeUpdate && bytes.Equal(m.Body, echoBody) {
+			continue
+		}
+		out = append(out, m)
+	}
+	return out
+}
+
 // apply configures the peer spec; existing callbacks are wrapped, not replaced.
 func (v variety) apply(ps *hz.PeerSpec, seed uint64) {
 	ps.Hold = v.LocalHold
-	if !v.Slow {
+	if !v.Slow && !v.Echo && v.Storm == 0 {
 		return
+	}
+	oc := ps.Cfg.OnCloseFn
+	var dmu sync.Mutex
+	done := map[*hz.Session]chan struct{}{}
+	storm := func(s *hz.Session) {
+		if v.Storm == 0 || s == nil || s.Writer == nil {
+			return
+		}
+		ch := make(chan struct{})
+		dmu.Lock()
+		done[s] = ch
+		dmu.Unlock()
+		for g := 0; g < v.Storm; g++ {
+			gr := rand.New(rand.NewPCG(seed, uint64(9000+g)))
+			go func() {
+				select {
+				case <-v.kick.ch:
+				case <-ch:
+					return
+				}
+				for i := 0; i < 40; i++ {
+					if s.Writer.WriteUpdate(echoBody) != nil {
+						return
+					}
+					if d := gr.IntN(1500); d > 0 {
+						time.Sleep(time.Duration(d))
+					}
+				}
+			}()
+		}
+	}
+	ps.Cfg.OnCloseFn = func(s *hz.Session) {
+		dmu.Lock()
+		if ch := done[s]; ch != nil {
+			close(ch)
+			delete(done, s)
+		}
+		dmu.Unlock()
+		if oc != nil {
+			oc(s)
+		}
 	}
 	sr := rand.New(rand.NewPCG(seed, 4711))
 	var mu sync.Mutex
 	nap := func() {
+		if !v.Slow {
+			return
+		}
 		mu.Lock()
 		d := time.Duration(sr.IntN(3000))
 		mu.Unlock()
 		time.Sleep(d)
 	}
+	echo := func(s *hz.Session) {
+		if v.Echo && s != nil && s.Writer != nil {
+			s.Writer.WriteUpdate(echoBody) // the result is C04's business; here it must return
+		}
+	}
 	oe, oo, ou := ps.Cfg.OnEst, ps.Cfg.OnOpen, ps.Cfg.OnUpdate
 	ps.Cfg.OnEst = func(s *hz.Session) {
 		nap()
+		echo(s)
+		storm(s)
 		if oe != nil {
 			oe(s)
 		}
@@ -344,6 +438,7 @@ func (v variety) apply(ps *hz.PeerSpec, seed uint64) {
 	}
 	ps.Cfg.OnUpdate = func(s *hz.Session, idx int, body []byte) *corebgp.Notification {
 		nap()
+		echo(s)
 		if ou != nil {
 			return ou(s, idx, body)
 		}
@@ -422,4 +517,12 @@ func bringAfterInbound(w *hz.World, ps hz.PeerSpec, st string, hold uint16) *ses
 		return nil
 	}
 	return s
+}
+
+// mix is a 64-bit finalizer (splitmix64) for deriving per-case constants from a seed.
+func mix(x uint64) uint64 {
+	x += 0x9e3779b97f4a7c15
+	x = (x ^ (x >> 30)) * 0xbf58476d1ce4e5b9
+	x = (x ^ (x >> 27)) * 0x94d049bb133111eb
+	return x ^ (x >> 31)
 }
